@@ -155,6 +155,101 @@ static lp_polynomial_t* build_poly(lp_polynomial_t* T, int kind) {
   return p;
 }
 
+/* small polynomial in x0, x1 used as a coefficient: constants, values' vanishing templates, sums and products */
+static lp_polynomial_t* coeff_poly(void) {
+  unsigned k = rnd(12);
+  switch (k) {
+  case 0: return P_const(rnd_in(-3, 3));
+  case 1: return P_var(0, 1);
+  case 2: return P_var(1, 1);
+  case 3: return P_add(P_var(0, 1), P_var(1, 1));
+  case 4: return P_mul(P_var(0, 1), P_var(1, 1));
+  case 5: return P_sub(P_var(0, 2), P_const(2));
+  case 6: return P_sub(P_var(1, 2), P_const(3));
+  case 7: return P_sub(P_var(0, 1), P_const(1));
+  case 8: return P_const(chance(50) ? 1 : 2);
+  case 9: return chance(30) ? P_sub(P_mul(P_var(0, 1), P_var(1, 1)), P_var(2, 1)) : P_const(3);
+  case 10: return P_scale(P_var(0, 1), 2);
+  default: return P_const(1);
+  }
+}
+
+/* polynomial with main variable y = x3 as a product of 1-2 factors with coefficients in x0..x2 */
+static lp_polynomial_t* main_poly(void) {
+  lp_polynomial_t* p = P_const(1);
+  int nf = 1 + rnd(2);
+  for (int j = 0; j < nf; ++j) {
+    unsigned k = rnd(8);
+    if (j > 0) { static const unsigned low[] = { 0, 2, 6, 0 }; k = low[rnd(4)]; }     /* keep the degree in y <= 4 */
+    if (k == 7 && nf > 1) k = 1;
+    lp_polynomial_t* f;
+    if (k == 0) f = P_sub(P_var(3, 1), coeff_poly());                                    /* y - L */
+    else if (k == 1) f = P_sub(P_var(3, 2), coeff_poly());                               /* y^2 - L */
+    else if (k == 2) f = P_sub(P_mul(coeff_poly(), P_var(3, 1)), coeff_poly());          /* L1*y - L2 */
+    else if (k == 3) { lp_polynomial_t* L = coeff_poly(); lp_polynomial_t* L2 = lp_polynomial_new_copy(L);  /* (y - L)^2 */
+      lp_polynomial_t* a = P_sub(P_var(3, 1), L); lp_polynomial_t* b = P_sub(P_var(3, 1), L2); f = P_mul(a, b); }
+    else if (k == 4) f = P_add(P_add(P_mul(coeff_poly(), P_var(3, 2)), P_mul(coeff_poly(), P_var(3, 1))), coeff_poly());
+    else if (k == 5) f = P_add(P_var(3, 2), P_add(P_mul(coeff_poly(), coeff_poly()), P_const(1)));   /* y^2 + L^2 + 1 : often no roots */
+    else if (k == 6) f = P_sub(P_var(3, 2), P_const(2));                                 /* rational coefficients, irrational roots */
+    else f = P_sub(P_var(3, 3), coeff_poly());
+    p = P_mul(p, f);
+  }
+  if (chance(15)) p = P_mul(p, coeff_poly());          /* content that may vanish */
+  if (lp_polynomial_is_constant(p) || lp_polynomial_top_variable(p) != hp_x[3]) { lp_polynomial_delete(p); p = P_sub(P_var(3, 2), P_var(0, 1)); }
+  return p;
+}
+
+static void sb_vinterval(const lp_interval_t* I) {
+  if (I->is_point) { sb_str("["); sb_val(&I->a); sb_str("]"); return; }
+  sb_str(I->a_open ? "(" : "["); sb_val(&I->a); sb_str("~"); sb_val(&I->b); sb_str(I->b_open ? ")" : "]");
+}
+static void sb_vset(const lp_feasibility_set_t* s) {
+  sb_str("{");
+  for (size_t i = 0; i < s->size; ++i) { if (i) sb_str(";"); sb_vinterval(s->intervals + i); }
+  sb_str("}");
+}
+
+static void main_case(int mode) {
+  int kind = 0;
+  lp_polynomial_t* T = scenario(&kind);
+  if (T) lp_polynomial_delete(T);
+  if (kind == 4 && chance(70)) {            /* cubic coordinates make the eliminations expensive: mostly replace by a rational */
+    lp_value_destruct(&vals[0]); val_rat(&vals[0], rnd_in(-3, 3), 1 + rnd(2));
+  }
+  M = lp_assignment_new(hp_db);
+  set_vals();
+  lp_polynomial_t* p = main_poly();
+  lp_polynomial_set_external(p);
+  if (mode == 1) {
+    size_t d = lp_polynomial_degree(p), n = 0;
+    lp_value_t* roots = (lp_value_t*)malloc((d + 1) * sizeof(lp_value_t));
+    sb_begin("ev", "roots"); sb_sp(); sb_poly(p); sb_sp(); sb_asg(); sb_arrow();
+    lp_polynomial_roots_isolate(p, M, roots, &n);
+    sb_sp(); sb_ulong(n);
+    for (size_t k = 0; k < n; ++k) { sb_sp(); sb_val(&roots[k]); lp_value_destruct(&roots[k]); }
+    sb_emit();
+    free(roots);
+  } else {
+    int cond = rnd(6), neg = chance(40);
+    if (chance(70)) {
+      sb_begin("ev", "fs"); sb_sp(); sb_poly(p); sb_sp(); sb_long(cond); sb_sp(); sb_long(neg); sb_sp(); sb_asg(); sb_arrow();
+      lp_feasibility_set_t* s = lp_polynomial_constraint_get_feasible_set(p, (lp_sign_condition_t)cond, neg, M);
+      sb_sp(); sb_vset(s); sb_emit();
+      lp_feasibility_set_delete(s);
+    } else {
+      size_t k = rnd(lp_polynomial_degree(p) + 2);
+      sb_begin("ev", "rfs"); sb_sp(); sb_poly(p); sb_sp(); sb_ulong(k); sb_sp(); sb_long(cond); sb_sp(); sb_long(neg); sb_sp(); sb_asg(); sb_arrow();
+      lp_feasibility_set_t* s = lp_polynomial_root_constraint_get_feasible_set(p, k, (lp_sign_condition_t)cond, neg, M);
+      sb_sp(); sb_vset(s); sb_emit();
+      lp_feasibility_set_delete(s);
+    }
+  }
+  lp_polynomial_delete(p);
+  lp_assignment_delete(M);
+  for (int i = 0; i < nvals; ++i) lp_value_destruct(&vals[i]);
+  nvals = 0;
+}
+
 static void with_order(int reversed) { if (reversed) lp_variable_order_reverse(hp_order); }
 
 static void one_case(void) {
@@ -192,11 +287,12 @@ int main(int argc, char** argv) {
   long n = argc > 2 ? atol(argv[2]) : 1000;
   long only = argc > 3 ? atol(argv[3]) : -1;
   long start = argc > 4 ? atol(argv[4]) : 0;
+  int mode = 0; { const char* m = getenv("LPV_EVAL_MODE"); if (m && !strcmp(m, "roots")) mode = 1; else if (m && !strcmp(m, "fs")) mode = 2; }
   lpv_init(); hp_init();
   for (long i = 0; i < n; ++i) {
     if ((only >= 0 && i != only) || i < start) continue;
     lpv_begin_case(seed, i);
-    one_case();
+    if (mode == 0) one_case(); else main_case(mode);
   }
   hp_done();
   free(sb_buf);
